@@ -4,6 +4,7 @@ import Driver.Totp
 import Driver.Apache
 import Driver.Digest
 import Driver.Disabled
+import Driver.Rounds
 /-
 Line protocol driver: `<suite> <op> <args…>` per input line, one result line out.
 Compiled (`lean_exe modeldrv`); nothing imported here touches Mathlib.
@@ -16,6 +17,7 @@ def dispatch (line : String) : String :=
   | "apache" :: rest => Driver.Apache.handle rest
   | "digest" :: rest => Driver.Digest.handle rest
   | "dis" :: rest => Driver.Disabled.handle rest
+  | "rounds" :: rest => Driver.Rounds.handle rest
   | _ => Driver.bad
 
 partial def loop (h : IO.FS.Stream) (out : IO.FS.Stream) : IO Unit := do
